@@ -423,6 +423,19 @@ func runC06(r *rep.R) {
 			}
 		}
 	}
+	if thorough(r) {
+		// the 16-bit request fields over their whole domain
+		for v := int64(0); v < 0x10000; v++ {
+			do("GetSDR", v, 0xFFFF-v, v&0xFF, (v>>8)&0xFF)
+			do("GetSDR", 0x0001, v, 0, 5)
+		}
+		// every (offset, length) pair of a partial read
+		for off := int64(0); off < 256; off++ {
+			for ln := int64(0); ln < 256; ln++ {
+				do("GetSDR", 0xBEEF, 0x0102, off, ln)
+			}
+		}
+	}
 	// requests built by the high-level wrappers
 	for v := int64(0); v < 256; v++ {
 		do("Wrapper/GetSensorReading", v)
@@ -442,6 +455,16 @@ func runC06(r *rep.R) {
 	}
 	for _, id := range u32 {
 		do("Wrapper/GetSessionInfo", 0xFF, 0, id)
+	}
+	for which := int64(0); which < 5; which++ {
+		do("Wrapper/NoBody", which)
+		do("Wrapper/dcmi.Capabilities", which+1, 0)
+		do("Wrapper/dcmi.Capabilities", which+1, 1)
+	}
+	do("Wrapper/GetSessionPrivilegeLevel", 0)
+	do("Wrapper/sessionless.GetSystemGUID", 0)
+	for v := int64(0); v < 16; v++ {
+		do("Wrapper/sessionless.GetChannelAuthenticationCapabilities", v%2, v, 15-v)
 	}
 	for lunv := int64(0); lunv < 4; lunv++ {
 		for lin := int64(0); lin < 12; lin++ {
@@ -587,6 +610,57 @@ func c06Wrapper(ws *c06Worlds, c c06Case) (string, string) {
 		req := &dcmi.GetPowerReadingReq{Mode: dcmi.SystemPowerStatisticsMode(v[0])}
 		netfn, cmdno = 0x2c, 0x02
 		call = func() { dcmi.NewSessionCommander(sess).GetPowerReading(w.Ctx, req) }
+	case "Wrapper/NoBody":
+		// wrappers of commands without request data; v = [which]
+		type nb struct {
+			netfn, cmd byte
+			f          func()
+		}
+		tab := []nb{
+			{0x06, 0x37, func() { sess.GetSystemGUID(w.Ctx) }},
+			{0x06, 0x01, func() { sess.GetDeviceID(w.Ctx) }},
+			{0x00, 0x01, func() { sess.GetChassisStatus(w.Ctx) }},
+			{0x0a, 0x20, func() { sess.GetSDRRepositoryInfo(w.Ctx) }},
+			{0x0a, 0x22, func() { sess.ReserveSDRRepository(w.Ctx) }},
+		}
+		e := tab[int(v[0])%len(tab)]
+		netfn, cmdno, data = e.netfn, e.cmd, nil
+		call = e.f
+	case "Wrapper/sessionless.GetChannelAuthenticationCapabilities":
+		req := &ipmi.GetChannelAuthenticationCapabilitiesReq{ExtendedData: v[0] != 0, Channel: ipmi.Channel(v[1]), MaxPrivilegeLevel: ipmi.PrivilegeLevel(v[2])}
+		w = ws.less
+		netfn, cmdno, data = 0x06, 0x38, []byte{byte(v[0])<<7 | byte(v[1]), byte(v[2])}
+		call = func() { ws.less.Conn.GetChannelAuthenticationCapabilities(w.Ctx, req) }
+	case "Wrapper/sessionless.GetSystemGUID":
+		w = ws.less
+		netfn, cmdno, data = 0x06, 0x37, nil
+		call = func() { ws.less.Conn.GetSystemGUID(w.Ctx) }
+	case "Wrapper/GetSessionPrivilegeLevel":
+		netfn, cmdno, data = 0x06, 0x3b, []byte{0}
+		call = func() { sess.GetSessionPrivilegeLevel(w.Ctx) }
+	case "Wrapper/dcmi.Capabilities":
+		// the five parameter-specific wrappers of the DCMI commander; v = [parameter 1..5, in session?]
+		var sl dcmi.SessionlessCommands = dcmi.NewSessionlessCommander(ws.less.Conn)
+		if v[1] != 0 {
+			sl = dcmi.NewSessionCommander(sess)
+		} else {
+			w = ws.less
+		}
+		netfn, cmdno, data = 0x2c, 0x01, []byte{0xDC, byte(v[0])}
+		call = func() {
+			switch v[0] {
+			case 1:
+				sl.GetDCMICapabilitiesInfoSupportedCapabilities(w.Ctx)
+			case 2:
+				sl.GetDCMICapabilitiesInfoMandatoryPlatformAttrs(w.Ctx)
+			case 3:
+				sl.GetDCMICapabilitiesInfoOptionalPlatformAttrs(w.Ctx)
+			case 4:
+				sl.GetDCMICapabilitiesInfoManageabilityAccessAttrs(w.Ctx)
+			case 5:
+				sl.GetDCMICapabilitiesInfoEnhancedSystemPowerStatisticsAttrs(w.Ctx)
+			}
+		}
 	case "Wrapper/SensorReader":
 		// v = [owner LUN, sensor number, linearisation]
 		rec := c15Record(c15Case{Fmt: 0, Lin: int(v[2]), M: 1})
